@@ -1,7 +1,7 @@
 /-
 C14 — `normalize_networkx_labels`: sorting the labels and renumbering them 1..n.
 -/
-import Lemmas.GraphIOBase
+import Lemmas.GraphIOBip
 import Lemmas.GraphNx
 namespace Cnfgen.GraphFmt
 open Cnfgen Cnfgen.GraphLex
@@ -91,5 +91,111 @@ theorem relabelInts_id (n : Nat) (edges : List (Nat × Nat)) (h : ∀ e ∈ edge
 
 /-- the decimal string labels `"1", …, "n"` pydot returns for a written graph -/
 def decLabels (n : Nat) : List Str := (List.range n).map (fun i => natStr (i + 1))
+
+end Cnfgen.GraphFmt
+
+namespace Cnfgen.GraphFmt
+open Cnfgen Cnfgen.GraphLex
+
+/-! ### bipartite graphs through networkx: no relabelling by sorted label, each side is numbered
+in node order -/
+
+theorem idxOf_range_map (n k i : Nat) (hi : i < n) : ((List.range n).map (· + k)).idxOf (i + k) = i := by
+  have hnd : ((List.range n).map (· + k)).Nodup := by
+    apply List.nodup_iff_pairwise_ne.2
+    rw [List.pairwise_map]
+    exact List.pairwise_lt_range.imp (fun hab => by omega)
+  have hlen : i < ((List.range n).map (· + k)).length := by simp [hi]
+  have hget : ((List.range n).map (· + k))[i] = i + k := by simp
+  rw [← hget]
+  exact hnd.idxOf_getElem i hlen
+
+theorem filter_const_true {α} (l : List α) : l.filter (fun _ => true) = l := by
+  induction l with
+  | nil => rfl
+  | cons x xs ih => simp [ih]
+
+theorem filter_const_false {α} (l : List α) : l.filter (fun _ => false) = [] := by
+  induction l with
+  | nil => rfl
+  | cons x xs ih => simp [ih]
+
+theorem bipToNx_left (G : BipG) :
+    (((bipToNx G).1.filter (fun p => p.2 == some false)).map (·.1)) = (List.range G.l).map (· + 1) := by
+  simp [bipToNx, List.filter_append, List.filter_map, Function.comp_def, filter_const_true, filter_const_false]
+
+theorem bipToNx_right (G : BipG) :
+    (((bipToNx G).1.filter (fun p => p.2 == some true)).map (·.1)) = (List.range G.r).map (· + (G.l + 1)) := by
+  simp [bipToNx, List.filter_append, List.filter_map, Function.comp_def, filter_const_true, filter_const_false]
+  intro a _; omega
+
+/-- T-C14.4 (bipartite, gml and dot): `from_networkx(to_networkx(G))`, with the sides numbered in
+node order as `BipartiteGraph.from_networkx` does, gives back `G` -/
+theorem bipOfNx_bipToNx {G : BipG} (h : BipG.Inv G) :
+    ∃ G', bipOfNx (bipToNx G).1 (bipToNx G).2 = .ok G' ∧ BipG.Same G G' := by
+  have hnone : (bipToNx G).1.any (fun p => p.2.isNone) = false := by
+    simp [bipToNx]
+  have hfold : ∀ (es : List (Nat × Nat)) (g : BipG), (∀ e ∈ es, (1 ≤ e.1 ∧ e.1 ≤ G.l) ∧ 1 ≤ e.2 ∧ e.2 ≤ G.r) →
+      (es.map (fun e => (e.1, e.2 + G.l))).foldlM (fun g e =>
+        let ucolor := !(((List.range G.l).map (· + 1)).contains e.1)
+        let vcolor := ((List.range G.r).map (· + (G.l + 1))).contains e.2
+        if ucolor == vcolor then Except.error Err.valueError
+        else if !ucolor then g.addEdge (rank ((List.range G.l).map (· + 1)) e.1 : Nat)
+            (rank ((List.range G.r).map (· + (G.l + 1))) e.2 : Nat)
+        else g.addEdge (rank ((List.range G.l).map (· + 1)) e.2 : Nat)
+            (rank ((List.range G.r).map (· + (G.l + 1))) e.1 : Nat)) g =
+      g.addEdgesFrom (es.map (fun e => ((e.1 : Int), (e.2 : Int)))) := by
+    intro es
+    induction es with
+    | nil => intro g _; rfl
+    | cons e es ih =>
+      intro g hv
+      obtain ⟨⟨h1, h2⟩, h3, h4⟩ := hv e (List.mem_cons_self ..)
+      have hc1 : ((List.range G.l).map (· + 1)).contains e.1 = true := by
+        rw [List.contains_iff_mem, List.mem_map]
+        exact ⟨e.1 - 1, List.mem_range.2 (by omega), by omega⟩
+      have hc2 : ((List.range G.r).map (· + (G.l + 1))).contains (e.2 + G.l) = true := by
+        rw [List.contains_iff_mem, List.mem_map]
+        exact ⟨e.2 - 1, List.mem_range.2 (by omega), by omega⟩
+      have hr1 : rank ((List.range G.l).map (· + 1)) e.1 = e.1 := by
+        have := idxOf_range_map G.l 1 (e.1 - 1) (by omega)
+        rw [show e.1 - 1 + 1 = e.1 by omega] at this
+        simp only [rank, this]; omega
+      have hr2 : rank ((List.range G.r).map (· + (G.l + 1))) (e.2 + G.l) = e.2 := by
+        have := idxOf_range_map G.r (G.l + 1) (e.2 - 1) (by omega)
+        rw [show e.2 - 1 + (G.l + 1) = e.2 + G.l by omega] at this
+        simp only [rank, this]; omega
+      simp only [List.map_cons, List.foldlM_cons, hc1, hc2, Bool.not_true, hr1, hr2, BipG.addEdgesFrom_cons]
+      simp only [show ((false == true) = false) from rfl, Bool.false_eq_true, if_false, Bool.not_false, if_true]
+      cases g.addEdge (e.1 : Int) (e.2 : Int) with
+      | error x => rfl
+      | ok g₁ => exact ih g₁ (fun x hx => hv x (List.mem_cons_of_mem _ hx))
+  have hvalid : ∀ x ∈ G.edges.map (fun e => ((e.1 : Int), (e.2 : Int))),
+      BipG.Valid (BipG.init G.l G.r).l (BipG.init G.l G.r).r x.1 x.2 := by
+    intro x hx
+    obtain ⟨e, he, rfl⟩ := List.mem_map.1 hx
+    have := h.edges_range (u := e.1) (v := e.2) he
+    show BipG.Valid G.l G.r _ _
+    unfold BipG.Valid
+    omega
+  obtain ⟨G', hG'⟩ := BipG.addEdgesFrom_valid (BipG.inv_init G.l G.r) hvalid
+  obtain ⟨_, hi, hl, hr, hm⟩ := BipG.addEdgesFrom_ok (BipG.inv_init G.l G.r) hG'
+  refine ⟨G', ?_, BipG.same_of_inv h hi hl hr ?_⟩
+  · unfold bipOfNx
+    rw [hnone]
+    simp only [Bool.false_eq_true, if_false, bipToNx_left, bipToNx_right, List.length_map, List.length_range]
+    have := hfold G.edges (BipG.init G.l G.r) (fun e he => by
+      have := h.edges_range (u := e.1) (v := e.2) he; omega)
+    simp only [bipToNx]
+    rw [this, hG']
+  · intro p
+    rw [hm]
+    simp only [BipG.init, List.not_mem_nil, false_or]
+    constructor
+    · rintro ⟨x, hx, rfl⟩
+      obtain ⟨e, he, rfl⟩ := List.mem_map.1 hx
+      simpa using h.mem_edges.1 he
+    · intro hp
+      exact ⟨((p.1 : Int), (p.2 : Int)), List.mem_map.2 ⟨p, h.mem_edges.2 hp, rfl⟩, by simp⟩
 
 end Cnfgen.GraphFmt
